@@ -125,10 +125,10 @@ Print Assumptions C34_mask_to_offset_ranges.
       in-domain ids per fragment and addresses below 2^62 whose chunk ranges - the (min, max) of the live ids of
       each segment - do not overlap one another, RowIdIndex::new succeeds and
           get id = Some addr  <->  (id, addr) is a live row of some fragment.
-      PARTIAL: layouts where chunk ranges overlap but tile their union exactly (e.g. ids dealt alternately to
-      two fragments; the merge_overlapping_chunks path) are not covered by the theorem - they are checked by the
-      exhaustive/random correspondence and the brute-force oracle only; layouts that overlap without tiling are
-      the known-finding class Known_C34_index_overlapping_ranges (F18, refuted below). *)
+      PARTIAL: layouts where chunk ranges overlap (ids interleaved between fragments, with or without holes; the
+      merge_overlapping_chunks path) are not covered by the theorem - they are checked by the
+      exhaustive/random correspondence and the brute-force oracle only (F18 was repaired by ac0e2db; regression
+      Example below). *)
 Theorem C34_index_get : forall idx, Forall chunk_ok idx -> disjoint_chunks idx ->
   forall id addr, index_get idx id = Some addr <-> In (id, addr) (index_pairs idx).
 Proof. exact index_get_spec. Qed.
@@ -141,17 +141,13 @@ Theorem C34_index_partial : forall frags chunks, Forall frag_ok frags ->
 Proof. exact index_new_no_overlap. Qed.
 Print Assumptions C34_index_partial.
 
-(* F18: fragment 0 keeps ids {1,2,4,5,8}, an update carried id 7 into fragment 1: RowIdIndex::new panics. *)
-Theorem C34_index_overlapping_ranges_refuted : exists frags,
-  Known_C34_index_overlapping_ranges frags = true /\ NoDup (flat_map (fun f => rs_iter (snd (fst f))) frags)
-  /\ ~ (exists idx, index_new frags = Ok idx).
-Proof.
-  exists [ (0, [SBitmap 1 9 [true; true; false; true; true; false; false; true]], []); (1, [SRange 7 8], []) ].
-  split; [vm_compute; reflexivity|]. split.
-  - vm_compute. repeat (constructor; [cbn [In]; intuition discriminate|]). constructor.
-  - intros [idx H]. vm_compute in H. discriminate.
-Qed.
-Print Assumptions C34_index_overlapping_ranges_refuted.
+(* F18 regression (RowIdIndex::new used to panic here; repaired in /repo by ac0e2db): fragment 0 keeps ids
+   {1,2,4,5,8}, an update carried id 7 into fragment 1 - new succeeds and get is exact on the witness. *)
+Example C34_index_overlapping_ranges_regression :
+  let frags := [ (0, [SBitmap 1 9 [true; true; false; true; true; false; false; true]], []); (1, [SRange 7 8], []) ] in
+  (do idx <- index_new frags; Ok (map (index_get idx) [0; 1; 2; 3; 4; 5; 6; 7; 8; 9]))
+  = Ok [None; Some 0; Some 1; None; Some 2; Some 3; None; Some two32; Some 4; None].
+Proof. vm_compute. reflexivity. Qed.
 
 (* ---------- non-vacuity ---------- *)
 Example C34_nonvacuous_holds :
